@@ -222,7 +222,7 @@ def check_link(scn, T, tags):
 
 def build_cases(tier):
     K = 2 if tier == "quick" else 3
-    split = dict(FEATS_ALL, grids=["8x6h", "4x6h_off", "7xh_autumn"], modes=["split:12h", "split:d", "split:5h"])
+    split = dict(FEATS_ALL, grids=["8x6h", "4x6h_off", "7xh_autumn"], modes=["split:12h", "split:d", "split:5h"], common_window=[8, 1, 9])
     fams = [family("main", lambda ch: S.gen_portfolio(ch, FEATS_ALL), K),
             family("split", lambda ch: S.gen_portfolio(ch, split), K),
             family("names", gen_names, K),
